@@ -13,6 +13,7 @@ through /repo's wrapper would inherit whatever the wrapper does wrong (a lossy s
 side as well.  Also CPython's own opinion about the call (inspect.Signature.bind with tokens) and get_type_hints' keys."""
 import dataclasses
 import datetime
+import enum
 import inspect
 import json
 import typing
@@ -101,6 +102,15 @@ def reference_parse(tn, value):
     return pydantic.parse_obj_as(ANNS[tn], value)  # pragma: no cover  (pydantic 1)
 
 
+# annotation name -> registry name of a class built for one group of calls (same-named twins, see register_types);
+# identity-keyed: two twins have the same __name__ / __qualname__ / repr and must still be told apart
+TWIN_NAME = {}
+
+
+def tname(cls):
+    return TWIN_NAME.get(cls, cls.__name__)
+
+
 ANNS = {
     "int": int, "str": str, "float": float, "bool": bool, "List[int]": List[int], "Dict[str,int]": Dict[str, int],
     "Optional[int]": Optional[int], "Any": Any, "M1": M1, "M2": M2, "D1": D1, "D2": D2, "X": X,
@@ -123,6 +133,8 @@ def canon(v):
         return ["dep", v.name]
     if isinstance(v, Context):
         return ["ctx"]
+    if isinstance(v, enum.Enum):            # before int / str: members of mixin enums are ints / strs too
+        return ["enum", tname(type(v)), v.name, canon(v.value)]
     if isinstance(v, bool):
         return ["bool", v]
     if isinstance(v, int):
@@ -135,14 +147,16 @@ def canon(v):
         return [type(v).__name__, v.hex()]
     if isinstance(v, list):
         return ["list", [canon(x) for x in v]]
+    if isinstance(v, tuple) and hasattr(type(v), "_fields"):
+        return ["namedtuple", tname(type(v)), canon(dict(zip(type(v)._fields, v)))]
     if isinstance(v, tuple):
         return ["tuple", [canon(x) for x in v]]
     if isinstance(v, dict):
         return ["dict", sorted([[json.dumps(canon(k), sort_keys=True), canon(x)] for k, x in v.items()])]
     if isinstance(v, pydantic.BaseModel):
-        return ["model", type(v).__name__, canon({k: getattr(v, k) for k in type(v).model_fields})]
+        return ["model", tname(type(v)), canon({k: getattr(v, k) for k in type(v).model_fields})]
     if dataclasses.is_dataclass(v) and not isinstance(v, type):
-        return ["dc", type(v).__name__, canon({f.name: getattr(v, f.name) for f in dataclasses.fields(v)})]
+        return ["dc", tname(type(v)), canon({f.name: getattr(v, f.name) for f in dataclasses.fields(v)})]
     return ["other", type(v).__name__, repr(v)[:80]]
 
 
@@ -248,8 +262,8 @@ def py_bind(fn, case, nargs, kwnames):
     return out, None
 
 
-async def trip(case):
-    out = {}
+def define(case, out):
+    """exec the generated source of one case; returns (function, the list its body appends locals() to)"""
     CAP = []
     ns = dict(globals())
     ns["CAP"] = CAP
@@ -271,13 +285,15 @@ async def trip(case):
     if "return" in real_hints:
         hints.append(["return", case["ret"]])
     out["hints"] = hints
+    return fn, CAP
 
+
+def make_broker(fmt, ser):
     broker = CapBroker().with_result_backend(InmemoryResultBackend())
-    broker = broker.with_serializer(PickleSerializer() if case.get("ser") == "pickle" else JSONSerializer())
-    if case.get("fmt") == "json":
+    broker = broker.with_serializer(PickleSerializer() if ser == "pickle" else JSONSerializer())
+    if fmt == "json":
         broker = broker.with_formatter(JSONFormatter())
-    task = broker.register_task(fn, task_name="t")
-    captured = []
+    captured = broker.captured = []
     real_dumps = broker.formatter.dumps
 
     def dumps(message):
@@ -286,6 +302,20 @@ async def trip(case):
         return real_dumps(message)
 
     broker.formatter.dumps = dumps
+    return broker
+
+
+async def trip(case):
+    out = {}
+    fn, CAP = define(case, out)
+    broker = make_broker(case.get("fmt"), case.get("ser"))
+    task = broker.register_task(fn, task_name="t")
+    return await call(case, out, fn, CAP, broker, task,
+                      lambda: Receiver(broker, validate_params=bool(case.get("validate", True))))
+
+
+async def call(case, out, fn, CAP, broker, task, get_receiver):
+    """one call of `task` (a function already registered with `broker`) through kiq -> wire -> the receiver"""
     args = [build(s) for s in case["args"]]
     kwargs = {k: build(s) for k, s in case["kwargs"]}
     has_type = any(isinstance(a, type) for a in list(args) + list(kwargs.values()))
@@ -296,6 +326,7 @@ async def trip(case):
                              "kwargs": [[k, canon(dict_form(v))] for k, v in kwargs.items()]}
     tf = lambda a: ["dctype"] if isinstance(a, type) else canon(top_form(a))  # noqa: E731
     out["prepared_forms"] = {"args": [tf(a) for a in args], "kwargs": [[k, tf(v)] for k, v in kwargs.items()]}
+    nsent, ncap = len(broker.sent), len(broker.captured)
     try:
         await task.kiq(*args, **kwargs)
     except BaseException as e:  # noqa: BLE001
@@ -303,8 +334,10 @@ async def trip(case):
         out["kiq_msg"] = str(e)[:200]
         return out
     out["kiq"] = "ok"
-    bm = broker.sent[0]
-    whole, pargs, pkwargs, message = captured[0]
+    if len(broker.sent) != nsent + 1 or len(broker.captured) != ncap + 1:
+        raise RuntimeError("one kiq() sent %d messages / dumped %d" % (len(broker.sent) - nsent, len(broker.captured) - ncap))
+    bm = broker.sent[-1]
+    whole, pargs, pkwargs, message = broker.captured[-1]
     out["prepared"] = {"args": pargs, "kwargs": pkwargs}
     out["wire_type"] = type(bm.message).__name__
     loaded = broker.formatter.loads(bm.message)
@@ -316,7 +349,7 @@ async def trip(case):
     # pydantic itself (not taskiq.compat) on every (annotation in the signature, value on the wire)
     table = []
     seen = set()
-    for _, tn in hints:
+    for _, tn in out["hints"]:
         for v in list(loaded.args) + list(loaded.kwargs.values()):
             cv = canon(v)
             key = tn + "|" + json.dumps(cv, sort_keys=True)
@@ -331,7 +364,7 @@ async def trip(case):
                 table.append([tn, cv, "raise", type(e).__name__])
     out["conv"] = table
     out["pybind"], out["pybind_err"] = py_bind(fn, case, len(loaded.args), list(loaded.kwargs))
-    receiver = Receiver(broker, validate_params=bool(case.get("validate", True)))
+    receiver = get_receiver()
     consulted = out["consulted"] = []
 
     def logging_parse_obj_as(annot, value):
@@ -378,8 +411,123 @@ async def trip(case):
     return out
 
 
+# --------------------------------------------------------------------------- groups of calls over same-named types
+# A group case {"types": {registry name: spec}, "steps": [ordinary cases], "shared": bool, ...} is a SEQUENCE run in this
+# one process: the steps' signatures are annotated with classes built here from the specs - distinct class objects that
+# share __name__ / __qualname__ / __module__ / repr() / str() (two `Status` enums, two factory-built `Payload` models or
+# dataclasses, NewType / TypedDict / NamedTuple of one name) but differ in members / fields - bare or inside
+# List / Optional / Dict.  A worker process converts the arguments of many tasks one after the other; whatever it keeps
+# between calls (adapters, signatures, hints) must be kept per annotation OBJECT.  Each step is judged on its own
+# against pydantic applied directly to the step's own class (reference_parse, adapters dropped when the group ends).
+# shared = one broker and ONE Receiver (constructed after all the group's tasks are registered, as in a worker) for
+# all steps; otherwise a fresh broker + receiver per step.
+FIELD_ANNS = {"int": int, "str": str, "float": float, "bool": bool, "List[int]": List[int], "Optional[int]": Optional[int]}
+FIELD_SRC = {k: k for k in FIELD_ANNS}
+WRAPS = {"List[%s]": lambda t: List[t], "Optional[%s]": lambda t: Optional[t], "Dict[str,%s]": lambda t: Dict[str, t]}
+
+
+def _class_by_factory(spec, deco, base):
+    """class statement inside a function (a class factory): qualname `make.<locals>.Name`, module as given"""
+    lines = ["def make():", "    %sclass %s%s:" % (deco, spec["name"], base)]
+    for f in spec["fields"]:
+        lines.append("        %s: %s" % (f[0], FIELD_SRC[f[1]]) + (" = %r" % (f[2],) if len(f) > 2 else ""))
+    lines.append("    return %s" % spec["name"])
+    ns = {"pydantic": pydantic, "dataclasses": dataclasses, "List": List, "Optional": Optional,
+          "__name__": spec.get("module") or __name__}
+    exec("\n".join(lines) + "\n", ns)  # noqa: S102
+    return ns["make"]()
+
+
+def build_type(spec):
+    k, name, module = spec["k"], spec["name"], spec.get("module") or __name__
+    if k == "enum":
+        members = [(m, v) for m, v in spec["members"]]
+        mix = {"str": str, "int": int}.get(spec.get("mixin"))
+        return enum.Enum(name, members, module=module, type=mix) if mix else enum.Enum(name, members, module=module)
+    if k == "model":
+        if spec.get("how") == "factory":
+            return _class_by_factory(spec, "", "(pydantic.BaseModel)")
+        return pydantic.create_model(name, __module__=module,
+                                     **{f[0]: (FIELD_ANNS[f[1]], f[2] if len(f) > 2 else ...) for f in spec["fields"]})
+    if k == "dc":
+        if spec.get("how") == "factory":
+            return _class_by_factory(spec, "@dataclasses.dataclass\n    ", "")
+        return dataclasses.make_dataclass(
+            name, [(f[0], FIELD_ANNS[f[1]]) + ((dataclasses.field(default=f[2]),) if len(f) > 2 else ()) for f in spec["fields"]],
+            module=module)
+    if k == "newtype":
+        t = typing.NewType(name, FIELD_ANNS[spec["base"]])
+    elif k == "typeddict":
+        t = typing.TypedDict(name, {f[0]: FIELD_ANNS[f[1]] for f in spec["fields"]}, total=bool(spec.get("total", True)))
+    elif k == "namedtuple":
+        t = typing.NamedTuple(name, [(f[0], FIELD_ANNS[f[1]]) for f in spec["fields"]])
+    else:
+        raise ValueError(spec)
+    t.__module__ = module
+    return t
+
+
+def register_types(types):
+    added = []
+    for tn, spec in types.items():
+        if tn in ANNS or tn in globals():
+            raise RuntimeError("type name %s taken" % tn)
+        cls = build_type(spec)
+        TWIN_NAME[cls] = tn
+        globals()[tn] = cls          # the generated sources are exec'd in a copy of this module's globals
+        ANNS[tn], ANN_SRC[tn] = cls, tn
+        added.append(tn)
+        if spec["k"] == "model":
+            MODELS[tn] = cls
+        if spec["k"] == "dc":
+            DCS[tn] = cls
+        for pat, mk in WRAPS.items():
+            ANNS[pat % tn], ANN_SRC[pat % tn] = mk(cls), (pat % tn).replace(",", ", ")
+            added.append(pat % tn)
+    return added
+
+
+def unregister_types(added):
+    for n in added:
+        cls = ANNS.pop(n)
+        ANN_SRC.pop(n)
+        _ADAPTERS.pop(n, None)
+        MODELS.pop(n, None)
+        DCS.pop(n, None)
+        if globals().get(n) is cls:
+            del globals()[n]
+            TWIN_NAME.pop(cls, None)
+
+
+async def group_trip(case):
+    added = register_types(case["types"])
+    try:
+        out = {"type_reprs": {tn: repr(ANNS[tn]) for tn in case["types"]}}
+        steps = case["steps"]
+        if not case.get("shared"):
+            out["steps"] = [await trip(s) for s in steps]
+            return out
+        conf = (case.get("fmt"), case.get("ser"), bool(case.get("validate", True)))
+        for s in steps:
+            if (s.get("fmt"), s.get("ser"), bool(s.get("validate", True))) != conf:
+                raise RuntimeError("a step of a shared-receiver group has its own formatter / serializer / validate_params")
+        broker = make_broker(conf[0], conf[1])
+        defs = []
+        for i, s in enumerate(steps):
+            o = {}
+            fn, CAP = define(s, o)
+            defs.append((s, o, fn, CAP, broker.register_task(fn, task_name="t%d" % i)))
+        receiver = Receiver(broker, validate_params=conf[2])
+        out["steps"] = [await call(s, o, fn, CAP, broker, task, lambda: receiver) for s, o, fn, CAP, task in defs]
+        return out
+    finally:
+        unregister_types(added)
+
+
 def run_case(case, opts):
     async def main(loop):
+        if "steps" in case:
+            return await group_trip(case)
         return await trip(case)
 
     return vloop.run(main)
